@@ -581,7 +581,9 @@ func c09Tail(s string, n int) string {
 // A host (the wasm entry point, a library user) configures the limit with debug.SetMemoryLimit at any time: the guard
 // must follow the limit in force when the operation runs, whatever was evaluated under earlier limits.
 
-var c09MemSeqActions = []string{"limit=none", "limit=high", "limit=low", "len([0] * 1000)", "len([0] * 1000000)", "len(0:1000000)", `len("ab" * 8000000)`, "a = [1, 2, 3, 4] * 200000; len(a + a + a)"}
+var c09MemSeqActions = []string{"limit=none", "limit=high", "limit=low", "len([0] * 1000)", "len([0] * 1000000)", "len(0:1000000)", `len("ab" * 8000000)`, "a = [1, 2, 3, 4] * 200000; len(a + a + a)",
+	// values are values under every limit: an array shared by two variables, updated through one of them when there is no room for a copy
+	"sa = [0] * 600000; sb = sa; len(sb)", "sa[0] = 1; println(\"SHARED\", sb[0])"}
 
 func c09MemSeqChild(quick bool, only []string) int {
 	depth := 4
@@ -613,6 +615,13 @@ func c09MemSeqChild(quick bool, only []string) int {
 				r := x.step(act)
 				refused := r.panicked || len(r.errs) > 0
 				big := a >= 4
+				if strings.HasPrefix(act, "sa[0] = 1") {
+					// (fails when sa was never built or when the copy is refused: both fine; when it runs, sb is untouched)
+					if strings.Contains(r.out, "SHARED 1") {
+						return fmt.Sprintf("step %d: %s changed the other variable sharing the array (limit %s): %s", pos, act, level, strings.TrimSpace(r.out))
+					}
+					continue
+				}
 				fmt.Printf("C09MEMSEQ-OBS %s %v %v\n", level, big, refused)
 				if big && level == "low" && !refused {
 					return fmt.Sprintf("step %d: %s was granted (%s) with the limit at heap + 6 MiB (it needs 16 MiB or more)", pos, act, strings.TrimSpace(r.out))
